@@ -14,6 +14,21 @@ PENDING = {}
 
 # only properties listed in tools/integrated.txt are claimed (others may be under construction)
 INTEGRATED = set(open(os.path.join(ROOT, "tools", "integrated.txt")).read().split())
+from harness import core as _core
+
+
+def df_note(pid):
+    if pid not in _core.DF_STAGE_THOROUGH:
+        return ""
+    tier = "both tiers (reduced budget in quick)" if pid in _core.DF_STAGE_QUICK_LITE else "the thorough tier"
+    return (f" In {tier} the check also runs the mixed-history stage (spec/DF.tla, DFTrace.tla, harness/props/df.py, notes/DF.md): "
+            "one heap-with-references model of regions, meshes, subregions and fields in which the public calls of seven families "
+            "(geometry, selection, algebra, validity, updates, persistence, derivative) are mixed in one history; TLC enumerates the "
+            "histories, each is re-executed on the library with the whole projected object graph compared after every call, and long "
+            "random programs of the library are validated call by call by the same operators. Only disagreements with the clauses "
+            "that come from this property's text are reported by this check.")
+
+
 checks, na = [], []
 for pid in ALL:
     path = os.path.join(ROOT, "harness", "props", pid.lower() + ".py")
@@ -34,7 +49,7 @@ for pid in ALL:
         "engine": "tlc+conformance",
         "level_claimed": {"category": meta.get("level", "model_checking"), "text": meta["level_text"],
                           "design_ref": meta.get("design_ref", f"DESIGN.md section 7, {pid}")},
-        "level_note": meta["level_note"],
+        "level_note": meta["level_note"] + df_note(pid),
         "technique": meta.get("technique", "explicit TLA+ specification checked exhaustively with TLC; TLC states replayed into the library and library traces validated by TLC"),
     })
 
